@@ -340,7 +340,7 @@ def run_zcross(case):
 
 
 # ------------------------------------------------------------------ unwrap
-UNWRAP = [("1", "2"), ("1/2", "1"), ("2", "1"), ("3", "2"), ("1", "5"), ("1", "3"), ("1/4", "1")]
+UNWRAP = [("1", "2"), ("1/2", "1"), ("2", "1"), ("3", "2"), ("1", "5"), ("1", "3"), ("1/4", "1"), ("-4", "4"), ("-1", "3"), ("0", "2")]
 
 
 def check_unwrap(x, got, m, s, md, st):
